@@ -34,6 +34,7 @@ def make_scenario(rng: Rng, deep: bool) -> dict:
     store_mode = rng.choice(["ok", "ok", "fail_all", "no_broker"])
     faulty_store_p = 0.0 if store_mode == "ok" else 0.5
     jobs = []
+    overrun = rng.random() < 0.4
     for i in range(n):
         a = rng.randrange(nq)
         if prof == "equal":
@@ -47,14 +48,17 @@ def make_scenario(rng: Rng, deep: bool) -> dict:
         fail = rng.random() < 0.2
         j = {"id": f"m{i}", "name": f"act{a}", "queue": actors[f"act{a}"], "retries": 0, "timeout": 10 * S,
              "plan": [{"k": "raise" if fail else "ret", "dur": d}], "store_result": rng.random() < faulty_store_p}
+        if overrun and rng.random() < 0.15:
+            # an invocation that runs into its time limit and needs a moment to wind down after being cancelled
+            j.update(timeout=1 * S, plan=[{"k": "timeout", "dur": 0, "cleanup": rng.choice([0, 1000, 300_000])}])
         if arrivals == "burst" and i >= n // 2:
             j["at"] = 600_000
         elif arrivals == "trickle":
             j["at"] = i * rng.choice([10_000, 150_000])
         jobs.append(j)
-    total = sum(j["plan"][0]["dur"] for j in jobs)
+    total = sum(j["plan"][0]["dur"] + (1_400_000 if j["plan"][0]["k"] == "timeout" else 0) for j in jobs)
     return {"jobs": jobs, "actors": actors, "tasks_limit": limit, "converter": "basic", "policy": {"kind": "const", "us": 0},
-            "profile": prof, "arrivals": arrivals, "store_mode": store_mode, "store_fail_all": store_mode == "fail_all",
+            "profile": prof, "arrivals": arrivals, "overrun": overrun, "store_mode": store_mode, "store_fail_all": store_mode == "fail_all",
             "results_broker": store_mode != "no_broker", "consumer_latency_us": rng.choice([0, 0, 3_000, 40_000]),
             "horizon_s": (total / 1e6) + 8.0 + max((j.get("at", 0) for j in jobs)) / 1e6}
 
@@ -101,6 +105,7 @@ def check(run: WorkerRun, model: Model, res: Result, label: str) -> None:
     case = {"label": label, "tasks_limit": L, "queues": len(sc["actors"]), "messages": len(sc["jobs"]), "profile": sc["profile"],
             "arrivals": sc["arrivals"], "store_mode": sc["store_mode"], "consumer_latency_us": sc["consumer_latency_us"], "jobs": [{k: v for k, v in j.items() if k in ("id", "name", "at", "plan")} for j in sc["jobs"][:40]]}
     res.dist[f"L{L}:q{len(sc['actors'])}:{sc['profile']}:{sc['arrivals']}"] += 1
+    res.dist["time-limit-overruns"] += sum(1 for j in sc["jobs"] if j["plan"][0]["k"] == "timeout")
     res.note((L, len(sc["actors"]), len(sc["jobs"]), sc["profile"], sc["arrivals"]),
              sample={k: v for k, v in case.items() if k != "jobs"} | {"snapshots": len(snaps), "max_running": run.max_running}
              if len(res.samples) < 4 else None)
